@@ -87,6 +87,15 @@ func VerifActionKernel() {
 	}
 
 	act, conflicts := set.Action(sym)
+	// natively the iteration order of Action's conflict map is random: a replay repeats the call
+	// (REPEAT is set by the driver in replay files only) and keeps a deviating result
+	differs := false
+	for r := 1; r < verifParam("REPEAT", 1); r++ {
+		if a2, c2 := set.Action(sym); a2 != act {
+			act, conflicts, differs = a2, c2, true
+		}
+	}
+	verifAssert(!differs, "Action returns the same action on every call (no dependence on map iteration order)")
 
 	verifAssert(mode == 0, "an accept/reduce conflict is refused (Action does not return)")
 	wantConflict := (anyShift && minReduce >= 0) || distinctReduces >= 2
